@@ -3,7 +3,7 @@
 
 Two-way validation of the checks. Each entry of the JSON list describes one
 variant of /repo as textual substitutions:
-  {"name","prop","kind":"mutant"|"benign","edits":[{"file","old","new","nth":1}],"expect":"substring of the finding","absent":"substring of a KNOWN-FINDING line that a benign (repaired) variant must no longer print"}
+  {"name","prop","kind":"mutant"|"benign","patch":"seeded/<id>/patch.diff" (optional),"edits":[{"file","old","new","nth":1}],"expect":"substring of the finding","absent":"substring of a KNOWN-FINDING line that a benign (repaired) variant must no longer print"}
 The variant is applied to a scratch copy of /repo (outside /repo and /verif),
 must still build, and the property's quick check is run against the copy with
 VERIF_REPO/VERIF_OUT. A mutant must be reported (exit 1, finding contains
@@ -23,7 +23,15 @@ def run_variant(m):
         repo = os.path.join(scratch, "repo")
         subprocess.check_call(["rsync", "-a", "--exclude", ".git", REPO + "/", repo + "/"])
         pkgs = set()
-        for e in m["edits"]:
+        if m.get("patch"):  # a unified diff (relative to /verif), applied before the textual edits
+            pf = os.path.join(HERE, m["patch"])
+            a = subprocess.run(["git", "apply", pf], cwd=repo, capture_output=True, text=True)
+            if a.returncode != 0:
+                return "EDIT-FAILED", "patch does not apply: " + a.stderr[:300]
+            for l in open(pf):
+                if l.startswith("+++ b/") and l.strip().endswith(".go"):
+                    pkgs.add("./" + os.path.dirname(l.strip()[6:]))
+        for e in m.get("edits", []):
             p = os.path.join(repo, e["file"])
             s = open(p).read()
             nth = e.get("nth", 1)
